@@ -71,6 +71,7 @@ class Ctx:
         self._traces = {}
         self._sites = set()
         self.notes = []
+        self.anchor_errors = []
 
     # -- traces ---------------------------------------------------------
     def trace(self, clsname, method, assume=None, nonnull=(), record_loads=True):
@@ -107,6 +108,19 @@ class Ctx:
             self._sites.add((rule, site, construct))
         if not ok:
             self.findings.append(Finding(self.pid, rule, site, construct, message, file, line))
+        return ok
+
+    def anchor(self, site, what, ok, message="", ev=None, **_kw):
+        """An implementation anchor the rules need in order to locate a role (a helper call, a loop idiom ...).
+        Its absence does not by itself break the property: it is reported as ANALYSIS-ERROR (no verdict for
+        the obligations that depend on it), never as a violation.  Returns ok so that the caller can skip."""
+        if ok:
+            self.obligations.append({"rule": "ANCHOR", "site": site, "construct": _slug(str(what))[:200], "verdict": "discharged"})
+        else:
+            at = ""
+            if ev is not None and getattr(ev, "func", None) is not None:
+                at = " at %s:%s" % (ev.func.file, getattr(ev, "line", "?"))
+            self.anchor_errors.append("%s: %s not recognised%s%s" % (site, what, at, (" (" + message[:120] + ")") if message else ""))
         return ok
 
     def require(self, cond, what):
